@@ -374,7 +374,15 @@ def c02_7(ctx):
             if roles == want:
                 res.append(ctx.ok(spec, "%s preimage is %s" % (hashname, " ‖ ".join(roles)), c, mod, key=key))
             elif any(r.startswith("?") for r in roles):
-                res.append(ctx.err(spec, "%s preimage term not classified: %s" % (hashname, roles), c, mod))
+                # the signer's preimages are also decided by evaluation (C02.15: a different term in a preimage changes the signature under
+                # the stand-in hashes); the syntactic classification is the fallback, so an unrecognised spelling defers to those cells
+                cells = _signer_cells(ctx) if spec.startswith("pecc:PrivateKey.") else None
+                if cells is not None and all(f.status == "ok" for f in cells):
+                    res.append(ctx.ok(spec, "%s preimage decided by the signer cells (C02.15); spelling not classified syntactically" % hashname, c, mod, key=key))
+                elif cells is not None:
+                    res.append(ctx.bad(spec, "%s preimage: the signer cells (C02.15) fail" % hashname, c, mod, key=key))
+                else:
+                    res.append(ctx.err(spec, "%s preimage term not classified: %s" % (hashname, roles), c, mod))
             else:
                 res.append(ctx.bad(spec, "%s preimage is %s, BIP340 requires %s" % (hashname, " ‖ ".join(roles), " ‖ ".join(want)), c, mod, key=key))
         return res
@@ -743,8 +751,162 @@ def c02_14(ctx):
     return out
 
 
+# ---- C02.15: the signer evaluated over key format × key parity × nonce parity, against BIP340's own algorithm ----------------------------
+
+_P = 2**256 - 2**32 - 977
+_GX = 0x79BE667EF9DCBBAC55A06295CE870B07029BFCDB2DCE28D959F2815B16F81798
+_GY = 0x483ADA7726A3C4655DA4FBFC0E1108A8FD17B448A68554199C47D08FFB10D4B8
+
+
+def _ref_padd(a, b):
+    if a is None:
+        return b
+    if b is None:
+        return a
+    if a[0] == b[0] and (a[1] + b[1]) % _P == 0:
+        return None
+    lam = (3 * a[0] * a[0] * pow(2 * a[1], -1, _P)) % _P if a == b else ((b[1] - a[1]) * pow(b[0] - a[0], -1, _P)) % _P
+    x = (lam * lam - a[0] - b[0]) % _P
+    return x, (lam * (a[0] - x) - a[1]) % _P
+
+
+def _ref_mul(k):
+    k %= N
+    r, q = None, (_GX, _GY)
+    while k:
+        if k & 1:
+            r = _ref_padd(r, q)
+        q = _ref_padd(q, q)
+        k >>= 1
+    return r
+
+
+def _signer_cells(ctx):
+    if not hasattr(ctx, "_c02_signer"):
+        ctx._c02_signer = _signer_cells_(ctx)
+    return ctx._c02_signer
+
+
+def _signer_cells_(ctx):
+    """PrivateKey.even_secret / bip340_k / sign_schnorr evaluated by the engine's own evaluator.  The group arithmetic (`k * G`), the point codecs
+    (xonly, sec) and the verifier are the rule's reference implementation of secp256k1 (they are C03's and C02.4's subject); the three tagged
+    hashes are stand-ins that record which preimage they were given.  What is decided is the signer's own logic -- which secret, which key bytes
+    and which nonce enter which hash, for every combination of key format (compressed / uncompressed), key parity and nonce parity -- against
+    BIP340's Sign(sk, m, a).  None when outside the evaluator's subset."""
+    import hashlib
+    from sa.cells import ClassRef, Evaluator, Obj, Raised, Undecided
+    spec = "pecc:PrivateKey.sign_schnorr"
+    mod, fn = rl.get(ctx, spec)
+
+    def pt(k):
+        xy = _ref_mul(k)
+        if xy is None:
+            return Obj("pecc", "S256Point", {"k": 0, "x": None, "y": None, "parity": None})
+        return Obj("pecc", "S256Point", {"k": k % N, "x": Obj("pecc", "S256Field", {"num": xy[0], "prime": _P}), "y": Obj("pecc", "S256Field", {"num": xy[1], "prime": _P}), "parity": xy[1] & 1})
+
+    def xonly(p):
+        return p.attrs["x"].attrs["num"].to_bytes(32, "big")
+
+    def sec(p, compressed=True):
+        if compressed:
+            return bytes([2 + p.attrs["parity"]]) + xonly(p)
+        return b"\x04" + xonly(p) + p.attrs["y"].attrs["num"].to_bytes(32, "big")
+
+    def th(tag):
+        return lambda m: hashlib.sha256(tag + bytes(m)).digest()
+
+    h_aux, h_nonce, h_ch = th(b"aux"), th(b"nonce"), th(b"challenge")
+
+    def rmul(p, c):
+        if not isinstance(c, int) or "k" not in p.attrs:
+            raise Undecided("scalar multiple of a point outside the model")
+        return pt(c * p.attrs["k"])
+
+    def ref_sign(d0, m, a):
+        P0 = _ref_mul(d0)
+        d = d0 if P0[1] % 2 == 0 else N - d0
+        px = P0[0].to_bytes(32, "big")
+        t = bytes(x ^ y for x, y in zip(d.to_bytes(32, "big"), h_aux(a)))
+        k0 = int.from_bytes(h_nonce(t + px + m), "big") % N
+        R = _ref_mul(k0)
+        k = k0 if R[1] % 2 == 0 else N - k0
+        e = int.from_bytes(h_ch(R[0].to_bytes(32, "big") + px + m), "big") % N
+        return R[0], (k + e * d) % N, R[1] % 2
+
+    def ref_verify(p, m, sig):
+        r, s = sig.attrs.get("r"), sig.attrs.get("s")
+        if not isinstance(r, Obj) or r.attrs.get("x") is None or not isinstance(s, int) or "k" not in p.attrs:
+            return False
+        rx = r.attrs["x"].attrs["num"]
+        e = int.from_bytes(h_ch(rx.to_bytes(32, "big") + xonly(p) + m), "big") % N
+        kk = p.attrs["k"] if p.attrs["parity"] == 0 else N - p.attrs["k"]   # discrete log of lift_x(x(P))
+        R = _ref_mul((s - e * kk) % N)
+        return R is not None and R[1] % 2 == 0 and R[0] == rx
+
+    def sig_init(o, r=None, s=None, *a, **k):
+        o.attrs.update({"r": r, "s": s})
+
+    hooks = {("S256Point", "__rmul__"): rmul, ("S256Point", "xonly"): xonly, ("S256Point", "sec"): sec, ("S256Point", "verify_schnorr"): ref_verify,
+             ("SchnorrSignature", "__init__"): sig_init}
+    ext = {"G": pt(1), "hash_aux": h_aux, "hash_nonce": h_nonce, "hash_challenge": h_ch}
+    # secrets with an even-Y and an odd-Y public key
+    secrets = {}
+    d0 = 0x0B0B0B0B0B0B0B0B0B0B0B0B0B0B0B0B0B0B0B0B0B0B0B0B0B0B0B0B0B0B0B0B
+    while len(secrets) < 2:
+        secrets.setdefault(_ref_mul(d0)[1] % 2, d0)
+        d0 += 1
+    seen, out, n = set(), [], 0
+    try:
+        for par, d0 in sorted(secrets.items()):
+            for compressed in (True, False):
+                rpar_seen = set()
+                i = 0
+                while len(rpar_seen) < 4 and i < 24:
+                    i += 1
+                    m = hashlib.sha256(b"m%d" % i).digest()
+                    for aux in (None, hashlib.sha256(b"a%d" % i).digest()):
+                        want = ref_sign(d0, m, aux if aux is not None else b"\x00" * 32)
+                        if (want[2], aux is None) in rpar_seen:
+                            continue
+                        rpar_seen.add((want[2], aux is None))
+                        ctx.count("cells")
+                        n += 1
+                        where = "%s key with %s Y, nonce point with %s Y, aux %s" % ("compressed" if compressed else "uncompressed", "odd" if par else "even",
+                                                                                    "odd" if want[2] else "even", "absent" if aux is None else "given")
+                        ev = Evaluator(ctx.repo, method_hooks=hooks, externals=ext, max_steps=400000)
+                        try:
+                            key = Obj("pecc", "PrivateKey", {})
+                            ev.call("pecc:PrivateKey.__init__", [d0, "mainnet", compressed], self_obj=key)
+                            got = ev.call(spec, [m] + ([] if aux is None else [aux]), self_obj=key)
+                        except Raised as x:
+                            out.append(ctx.bad(spec, "%s: the signer raises %s where BIP340 signing succeeds" % (where, x.name), fn, mod, key="signer-cells"))
+                            return out
+                        ok = isinstance(got, Obj) and isinstance(got.attrs.get("r"), Obj) and got.attrs["r"].attrs.get("x") is not None \
+                            and (got.attrs["r"].attrs["x"].attrs["num"], got.attrs.get("s")) == want[:2]
+                        if not ok:
+                            out.append(ctx.bad(spec, "%s: the signature is not BIP340's Sign(sk, m, a) (a different secret, key bytes or nonce entered a hash)" % where, fn, mod, key="signer-cells"))
+                            return out
+                        seen.add((compressed, par, want[2], aux is None))
+    except Undecided as u:
+        return None
+    if len({c[:3] for c in seen}) < 8:
+        raise AnalysisError("signer cells: only %d of 8 (format, key parity, nonce parity) cells reached" % len({c[:3] for c in seen}))
+    out.append(ctx.ok(spec, "%d cells (key format × key parity × nonce parity × aux): signature equals BIP340 Sign(sk, m, a) computed by the rule's own secp256k1" % n, fn, mod, key="signer-cells"))
+    return out
+
+
+def c02_15(ctx):
+    """CELLS signer: the whole signing path over key format, key parity and nonce parity"""
+    r = _signer_cells(ctx)
+    if r is None:
+        mod, fn = rl.get(ctx, "pecc:PrivateKey.sign_schnorr")
+        return [ctx.err("pecc:PrivateKey.sign_schnorr", "signing path outside the evaluator's subset", fn, mod)]
+    return r
+
+
 OBLIGATIONS = [
     ("C02.14", "REJECT-SET", c02_14),
+    ("C02.15", "CELLS signer", c02_15),
     ("C02.13", "SHARED", c02_13),
     ("C02.12", "SET-ORDER", c02_12),
     ("C02.10", "MEMO", c02_10),
@@ -759,4 +921,4 @@ OBLIGATIONS = [
     ("C02.9", "LAYOUT codec", c02_9),
     ("C02.11", "RANGE+DATAFLOW scalar discipline", c02_11),
 ]
-FLOORS = {"C02.1": 21, "C02.3": 2, "C02.4": 4, "C02.6": 4, "C02.7": 3, "C02.8": 5, "C02.9": 2}
+FLOORS = {"C02.15": 1, "C02.1": 21, "C02.3": 2, "C02.4": 4, "C02.6": 4, "C02.7": 3, "C02.8": 5, "C02.9": 2}
